@@ -454,7 +454,8 @@ pub fn def(idx: usize, prev: Vec<Def>, o: DefOpts) -> BoxedStrategy<Def> {
                         let mut via_macro = via_macro;
                         if d.lifetime && salt % 2 == 0 {
                             if let Body::Struct(Shape::Named, fs) = &mut d.body {
-                                if !fs.is_empty() {
+                                // (not when the first member is what keeps a type parameter in use)
+                                if !fs.is_empty() && !fs[0].ty.any(&|t| matches!(t, TE::Param(_))) {
                                     fs[0].ty = match salt / 2 % 4 {
                                         0 => TE::StrA,
                                         1 => TE::SliceA(Box::new(TE::U(8))),
